@@ -16,7 +16,7 @@ PROPS = {
     "C01": {
         "level": "exploration",
         "rule": "run = seeded report multiset from a grammar (imp+conv pairs, conv+conv with wrapping value sums, imp+imp with wrapping breakdown sums, keys with 3+ reports, singles, only-impressions, "
-                "only-conversions, one hot bucket driven past saturation of the 8-bit output instantiation) x shards {1,2,3,5} x assignment plan (round-robin, random, all-to-one, one shard empty) x "
+                "only-conversions, one hot bucket driven past saturation of the 8-bit output instantiation; c01_deep: 65..90 pairs on one bucket of one shard = a third aggregation layer) x shards {1,2,3,5} x assignment plan (round-robin, random, all-to-one, one shard empty) x "
                 "{semi-honest, malicious} x {no padding, relaxed padding} x output width {32-bit production, 8-bit} x gateway knobs x schedule policy; non-trivial iff >=1 report and >=1 multi-choice decision; "
                 "distinct by (shape, schedule digest)",
         "scenarios": [
@@ -60,7 +60,7 @@ PROPS = {
         "level": "exploration",
         "rule": "c06_prss: run = endpoints negotiated over the simulated network or made by make_participants, 1..24 seeded (step, index, width) queries with widths {1,2,16,2048 blocks = the offset cap} "
                 "and a sequential generator per helper; c06_xshard: gen_and_distribute on 3 helpers x {2,3,5} shards; reuse monitor: the debug-build UsedSet detector is armed in the fault-free workloads of "
-                "C04/C05/C07 (MAC batches over (records, active) grids, DZKP proof batches, sharded shuffles over row counts x shards) - a run is non-trivial iff it drew PRSS values on >=2 helpers; distinct by (shape, schedule digest)",
+                "C01/C04/C05/C07 (MAC batches over (records, active) grids incl. out-of-order batch completion, DZKP proof batches, select/sat_sub/share conversion, sharded shuffles over row counts x shards, whole hybrid queries incl. three aggregation layers) - a run is non-trivial iff it drew PRSS values on >=2 helpers; distinct by (shape, schedule digest)",
         "scenarios": [
             {"name": "c06_prss", "quick": 3000, "thorough": 100000, "offset": 1, "chunk": 100},
             {"name": "c06_xshard", "quick": 3000, "thorough": 100000, "offset": 2, "chunk": 150},
@@ -95,9 +95,11 @@ PROPS = {
     "C04": {
         "level": "fault_enumeration",
         "rule": "run = seeded MAC-protected workload over {Fp31, Fp32BitPrime, Fp25519} (upgrade -> multiply -> validate_record -> reveal, 1..24 records, active work {2,4,8,16} so that "
-                "several MAC batches incl. a partial last one are formed) or the real pseudonym function eval_dy_prf; executed honestly (must validate and open x*y resp. g^(1/(k+x))), then - in c04_tamper - "
+                "several MAC batches incl. a partial last one are formed; driven as a pipeline or 'two-phase' = all multiplications first, then validate_record for all records in a seeded order so that batches become ready "
+                "out of order), the same on 16-lane Fp25519 shares (the production layout), or the real pseudonym function eval_dy_prf; executed honestly (must validate and open x*y resp. g^(1/(k+x))), then - in c04_tamper - "
                 "replayed with the same seed while one helper adds +1 to one field element (or flips a bit) in one chunk it sends, the site drawn from the honest run's channel inventory stratified by step "
-                "(upgrade, multiply, duplicate multiply, propagate u/w, reveal r, check-zero multiply and reveal, opening); non-trivial iff delivered; distinct by (shape, site, schedule digest)",
+                "(upgrade, multiply, duplicate multiply, propagate u/w, reveal r, check-zero multiply and reveal, opening), or - 'consistent' attack - adds the same error to a product share it sends and to the copy of "
+                "that share it contributes to the opening, or - 'lane_cancel', 16-lane shares - adds +1 to one lane and -1 to another lane of both messages; non-trivial iff delivered; distinct by (shape, site, schedule digest)",
         "scenarios": [
             {"name": "c04_mac", "quick": 2000, "thorough": 100000, "offset": 1, "chunk": 50, "run_timeout": 120},
             {"name": "c04_tamper", "quick": 6000, "thorough": 300000, "offset": 2, "chunk": 100, "run_timeout": 120, "crash_ok": True},
